@@ -1,12 +1,12 @@
 import re,sys
-files=['ProofsLin','ProofsRot','ProofsQuat','ProofsBranch','ProofsSlerp','ProofsFrame','ProofsNonvac']
-skip=set('Rdiv_one thr_lt_1 sin_acos_pos slerp_coeff normalize_of_unit compose_def linear_compose_apply linear2_compose_apply det3_def det2_def transposed2_def adjoint2_def adjoint3_mul rows2_def rowmajor_ctor_def rcp_is_inverse normalize_is_unit rotate3_unit_matrix rotate_about_point_linear_part quat_mul_assoc quat_rotation_preserves_length quat_rotate_def quat_rotate_is_rodrigues quat_axis_rotations quat_neg_same_rotation nonvac_inverse_value nonvac_unit_axis normalize_dot cross_orthogonal triad_UZ triad_XN frame_unfold frame_d_props'.split())
+files=['ProofsLin','ProofsRot','ProofsQuat','ProofsBranch','ProofsSlerp','ProofsFrame','ProofsOrtho','ProofsNonvac']
+skip=set('Rdiv_one thr_lt_1 sin_acos_pos slerp_coeff normalize_of_unit compose_def linear_compose_apply linear2_compose_apply det3_def det2_def transposed2_def adjoint2_def adjoint3_mul rows2_def rowmajor_ctor_def rcp_is_inverse normalize_is_unit rotate3_unit_matrix rotate_about_point_linear_part quat_mul_assoc quat_rotation_preserves_length quat_rotate_def quat_rotate_is_rodrigues quat_axis_rotations quat_neg_same_rotation nonvac_inverse_value nonvac_unit_axis normalize_dot cross_orthogonal triad_UZ triad_XN frame_unfold frame_d_props ortho_mirrored_neg'.split())
 out=["(* C06 -- linear, affine and quaternion transforms obey their algebra and agree.",
 "   Every statement is about the definitions REGENERATED from /repo's headers (gen/GenLin.v, cxx2coq, Tie A),",
 "   read in the ideal interpretation IR over the real numbers (Sem.v).  Proofs are in Proofs*.v. *)",
 "From Coq Require Import Reals List Bool ZArith.",
 "From Common Require Import CxxSem.",
-"From C06 Require Import GenLin Sem ProofsLin ProofsRot ProofsQuat ProofsBranch ProofsSlerp ProofsFrame ProofsNonvac.",
+"From C06 Require Import GenLin Sem ProofsLin ProofsRot ProofsQuat ProofsBranch ProofsSlerp ProofsFrame Ortho ProofsOrtho ProofsNonvac.",
 "Local Open Scope R_scope.",""]
 for f in files:
     s=open(f+'.v').read()
